@@ -171,7 +171,7 @@ func TestVerifC15(t *testing.T) {
 		c15Part("direct-uni-srv-l3", c15Direct(srv, 1, 3)),
 		c15Part("direct-uni-cli-l2", c15Direct(cli, 1, 2)),
 		c15Part("in-uni-srv-l2", c15InUni(srv, 2, 9, 11)),
-		c15Part("in-uni-cli-l3", c15InUni(cli, 3, 8, 10)),
+		c15Part("in-uni-cli-l3", c15InUni(cli, 3, 7, 10)),
 		c15Part("in-bidi-srv-l3", c15InBidi(srv, 3, 6, 8)),
 		c15Part("in-bidi-cli-l2", c15InBidi(cli, 2, 7, 9)),
 		c15Part("out-srv", c15Out(srv)),
